@@ -19,9 +19,17 @@ DEFECTS = ["end_not_after_start", "step_not_dividing", "infectious_unknown", "in
            "second_birth", "second_age", "second_strain", "dup_strat", "dup_udeath", "dup_output", "mixing_partial", "age_partial",
            "mixing_strain", "unequal_src_dst", "expected_count", "bad_rate", "finalized", "source_is_rejected_request"]
 
+WHERE = ["src", "dst", "src+valid_dst", "dst+valid_src"]
+
 def payloads(tier, seed):
     n = 99 if tier == "quick" else 1650
-    return [{"seed": seed, "index": i, "defect": DEFECTS[i % len(DEFECTS)]} for i in range(n)]
+    out = [{"seed": seed, "index": i, "defect": DEFECTS[i % len(DEFECTS)]} for i in range(n)]
+    # the filter defects have four placements each (bad filter on either end, alone or beside a valid filter on the other end):
+    # every placement is exercised several times per run
+    extra = 24 if tier == "quick" else 400
+    for j in range(extra):
+        out.append({"seed": seed, "index": n + j, "defect": ["adj_filter_unknown_stratum", "adj_filter_unknown_strat"][j % 2], "where": WHERE[(j // 2) % 4]})
+    return out
 
 FINAL_OPS = [
     {"op": "flow", "kind": "transition", "name": "late_tr", "param": {"c": "1/8"}, "src": "@0", "dst": "@1"},
@@ -41,7 +49,7 @@ FINAL_OPS = [
     {"op": "request", "name": "late_fn", "kind": "func", "sources": ["@req"], "expr": {"+": [{"x": 0}, {"c": "1"}]}, "save": True},
 ]
 
-def inject(r, prog, defect):
+def inject(r, prog, defect, where=None):
     """returns (ops, index of the offending op) or None when the defect is not applicable to this program"""
     ops = copy.deepcopy(prog["build"])
     names = ops[0]["comps"]
@@ -84,9 +92,13 @@ def inject(r, prog, defect):
         i = r.choice(cands)
         fl = [ops[j] for j in range(i) if ops[j]["op"] == "flow" and ops[j]["kind"] in ("transition", "death", "inf_freq", "inf_dens", "absolute")]
         if not fl: return None
+        if where and where != "src":
+            fl = [f_ for f_ in fl if f_["kind"] != "death"]
+            if not fl: return None
         f = r.choice(fl)
         st = sorted(ops[i]["strata"], key=int) if ops[i]["kind"] == "age" else ops[i]["strata"]
         prev = [ops[j] for j in strat_idx if j < i]
+        if where and "valid" in where and not prev: return None
         if defect == "adj_filter_unknown_strat":
             flt = [["nostrat", "x"]]
         else:
@@ -96,7 +108,7 @@ def inject(r, prog, defect):
         # the bad filter goes on the source, on the destination, or on one of them while the other end carries a VALID filter --
         # naming the same earlier stratification when there is one (the two filters are validated independently)
         two_ended = f["kind"] != "death"
-        where = r.choice(["src", "dst", "src+valid_dst", "dst+valid_src"]) if two_ended else "src"
+        where = (where or r.choice(WHERE)) if two_ended else "src"
         valid = None
         if prev:
             pst = sorted(prev[0]["strata"], key=int) if prev[0]["kind"] == "age" else prev[0]["strata"]
@@ -321,8 +333,8 @@ def task(W, payload):
                 bump(out, "valid_request_rejected"); break
         return out
     inj = None
-    for _ in range(6):
-        inj = inject(r, prog, defect)
+    for _ in range(40 if payload.get("where") else 6):
+        inj = inject(r, prog, defect, payload.get("where"))
         if inj: break
         prog = Gen(r, Opts(max_strats=3, max_flows=5, n_requests=3, force_strat=True)).program()
     if not inj:
@@ -336,6 +348,7 @@ def task(W, payload):
     out["evals"] += 1
     out["cases"].append(defect + ":" + h)
     bump(out, "inject_pos:" + ("early" if at <= 2 else "mid" if at < len(ops) - 1 else "late"))
+    if payload.get("where"): bump(out, "filter_placement:" + payload["where"])
     if py["ok"]:
         fail(out, f"ill-formed definition accepted: {defect}", "c17", payload, defect=defect, call=ops[at], prefix=ops[:at])
     if ln["ok"]:
